@@ -897,6 +897,13 @@ impl Word {
     //     SegPos { syll_index: seg_pos.syll_index, seg_index: s_i }
     // }
 
+    /// Number of segments at or after `seg_pos`
+    pub(crate) fn seg_count_from(&self, seg_pos: SegPos) -> usize {
+        self.syllables.iter().enumerate().skip(seg_pos.syll_index).map(|(i, s)| {
+            if i == seg_pos.syll_index { s.segments.len().saturating_sub(seg_pos.seg_index) } else { s.segments.len() }
+        }).sum()
+    }
+
     pub(crate) fn in_bounds(&self, seg_pos: SegPos) -> bool {
         seg_pos.syll_index < self.syllables.len() && seg_pos.seg_index < self.syllables[seg_pos.syll_index].segments.len()
     }
